@@ -592,6 +592,55 @@ func cleanNeg(a map[string]bool) {
 	}
 }
 
+// printedKeyIsOwnKey: R07.4 — what the member loop prints as the key is the key the list was sorted and
+// de-duplicated by: the element's Key(), or DotPrefix(Key(), prefix) (a strictly monotone, injective image for a
+// fixed prefix). Any other rewriting at print time (a rename table, a sanitiser) can reorder the keys or make two
+// distinct keys collide after the de-duplication has run.
+func printedKeyIsOwnKey(c *Ctx, p *Prog, sa *ssa.Function) {
+	r := c.R
+	keyFn := p.Method(p.Slog, "PrintCtx", "pcAppendStringKey")
+	n := 0
+	var probs []string
+	var ok func(v ssa.Value, depth int) bool
+	ok = func(v ssa.Value, depth int) bool {
+		v = strip(v)
+		if depth > 6 {
+			return false
+		}
+		switch x := v.(type) {
+		case *ssa.Phi:
+			for _, e := range x.Edges {
+				if !ok(e, depth+1) {
+					return false
+				}
+			}
+			return true
+		case *ssa.Call:
+			if invokeName(x) == "Key" {
+				return true
+			}
+			if cal := calleeOf(x); cal != nil && nm(cal) == "DotPrefix" && len(x.Common().Args) >= 1 {
+				return ok(x.Common().Args[0], depth+1)
+			}
+		}
+		return false
+	}
+	for _, cs := range callsIn(sa) {
+		if calleeOf(cs) != keyFn || keyFn == nil {
+			continue
+		}
+		n++
+		arg := cs.Common().Args[len(cs.Common().Args)-1]
+		if !ok(arg, 0) {
+			probs = append(probs, fmt.Sprintf("the key written at %s is %s", p.Pos(instrPos(cs)), arg.String()))
+		}
+	}
+	if n == 0 {
+		return // keys are written by a helper: the shape is judged where R05.1 finds the key emission
+	}
+	r.Check(len(probs) == 0, "R07.4", "printed-key", p.FuncPos(sa), "the key printed is the element's own Key(), dot-prefixed at most", "the key printed is not the key the list was sorted and de-duplicated by: "+strings.Join(probs, "; ")+" (a rewriting at print time can put the keys out of order or print one key twice)")
+}
+
 func c07Sort(c *Ctx, p *Prog, m *Model) {
 	r := c.R
 	sa := p.Func(p.Slog, "serializeAttrs")
@@ -648,6 +697,7 @@ func c07Sort(c *Ctx, p *Prog, m *Model) {
 			eqFn = fnOf(args[1])
 		}
 	}
+	printedKeyIsOwnKey(c, p, sa)
 	if sortCall == nil {
 		r.Bad("R07.3", "sort:stability", p.FuncPos(sa), "serializeAttrs does not sort its members with a recognised sort function: ascending key order is not established")
 	}
